@@ -226,9 +226,16 @@ EndMatches(e, res) ==
 FinalResult == IF pc = P("compare")
                THEN (IF 16 \in q.defects THEN ErrR("SignatureDoesNotMatch", 16) ELSE Ok)
                ELSE result
+\* the harness gave up polling: allowed exactly when the script says the provider pends forever there
+StuckOk == \/ pc = P("ready") /\ script.readyIn = -1
+           \/ pc = P("await") /\ script.pendIn = -1
 TrEnd ==
     /\ Ev.ev = "End" /\ ~skip /\ Adv
-    /\ IF pc \in {P("done"), P("compare")} /\ EndMatches(Ev, FinalResult)
+    /\ IF Ev.res = "stuck"
+       THEN (IF StuckOk
+             THEN /\ pc' = P("idle") /\ nval' = 0 /\ UNCHANGED <<q, script, prov, calls, result, total>> /\ Keep
+             ELSE RejectEv(Where))
+       ELSE IF pc \in {P("done"), P("compare")} /\ EndMatches(Ev, FinalResult)
        THEN /\ result' = FinalResult /\ pc' = P("idle") /\ nval' = 0
             /\ UNCHANGED <<q, script, prov, calls, total>> /\ Keep
        ELSE RejectEv(Where @@ [expected |-> FinalResult])
